@@ -268,8 +268,14 @@ main(int argc, char **argv)
 	int nconf = (int)vf_argi(argc, argv, "--configs", 8);
 	int conf;
 	long startno = 0;
-	static const uint16_t mode_suites[6] = { 0x002F, 0x009C, 0xC09C, 0xCCA8, 0x000A, 0xC02B };
-	static const unsigned mode_ver[6] = { 0x0301, 0x0303, 0x0303, 0x0303, 0x0302, 0x0303 };
+	/* configurations 0-5 and 6-11 use the same layouts and sizes with other record protections: 3DES also at TLS 1.0
+	   (1 / n-1 split with 8-byte blocks), SHA-256 CBC, CCM_8, AES-256 */
+	static const uint16_t mode_suites_a[6] = { 0x002F, 0x009C, 0xC09C, 0xCCA8, 0x000A, 0xC02B };
+	static const unsigned mode_ver_a[6] = { 0x0301, 0x0303, 0x0303, 0x0303, 0x0302, 0x0303 };
+	static const uint16_t mode_suites_b[6] = { 0x000A, 0x003C, 0xC0A1, 0xCCA9, 0x0035, 0xC030 };
+	static const unsigned mode_ver_b[6] = { 0x0301, 0x0303, 0x0303, 0x0303, 0x0302, 0x0303 };
+	const uint16_t *mode_suites = mode_suites_a;
+	const unsigned *mode_ver = mode_ver_a;
 
 	(void)sync_case;
 	tp_prop = "C06";
@@ -284,6 +290,8 @@ main(int argc, char **argv)
 		long step = 0;
 		int phase;
 
+		mode_suites = conf >= 6 ? mode_suites_b : mode_suites_a;
+		mode_ver = conf >= 6 ? mode_ver_b : mode_ver_a;
 		vf_rng_init(&r, (uint64_t)seed, (uint64_t)conf);
 		tp_cfg_default(&cc, 0);
 		tp_cfg_default(&sc, 1);
